@@ -213,4 +213,97 @@ theorem queries_fin {env : Env} {G : Guards} {measured : List Exc} {asked : List
           · rw [hans]; exact ha'
           · exact Or.inl hf'
 
+/-! ### the loader -/
+
+/-- end of the loader: the loaded-object variable holds nothing, or a trusted object -/
+theorem finish_fin {env : Env} {G : Guards} {measured : List Exc} {qs : List Nat}
+    (hG : WF G) (hP : PickleOK env measured) (sh : Sh) (p : Proc)
+    (hl : sh.lock = none) (ha : p.answers = []) (ht : p.todo = qs)
+    (hmem : ∀ v, p.loaded = some v → ∀ e ∈ v.ents, EntOK env e)
+    (hf : FileOK env sh.file ∨ (G.w.mergesExisting = false ∧ p.selfFp = none ∧ p.loaded = none ∧ qs ≠ [])) :
+    Fin env G qs sh (finishLoader env G p) := by
+  unfold finishLoader
+  rw [ht]
+  apply queries_fin hG hP qs sh _ hl
+  · intro e he
+    cases hld : p.loaded with
+    | none => simp [hld] at he
+    | some v => simp [hld] at he; exact hmem v hld e he
+  · simp [ha]
+  · rcases hf with hf | ⟨h1, h2, h3, h4⟩
+    · exact Or.inl hf
+    · exact Or.inr ⟨h1, h2, by simp [h3], h4⟩
+
+/-- an exception the loader's `try` catches: handler (→ remove), then the queries -/
+theorem raise_fin {env : Env} {G : Guards} {measured : List Exc} {qs : List Nat}
+    (hG : WF G) (hP : PickleOK env measured)
+    (hrep : (G.l.removeStale = true ∧ G.l.handlerRemoves = true) ∨ (qs ≠ [] ∧ G.w.mergesExisting = false))
+    (sh : Sh) (p : Proc) (e : Exc) (hc : Exc.caughtBy G.l.caught e = true)
+    (hl : sh.lock = none) (hfp : p.selfFp = none) (ha : p.answers = []) (ht : p.todo = qs) :
+    Fin env G qs sh (loaderRaise env G p e) := by
+  unfold loaderRaise
+  simp only [hc, hG.handlerClears, if_true]
+  by_cases hr : G.l.handlerRemoves = true
+  · simp only [hr, if_true]
+    have htol := hG.tolerates hr
+    have rm : Fin env G qs sh { p with loaded := none, pc := .hRemove } := by
+      apply Fin_step
+      cases hfile : sh.file with
+      | none =>
+        simp [pstep, hfile, htol]
+        exact finish_fin hG hP _ _ hl ha ht (by simp) (Or.inl (Or.inl hfile))
+      | some b =>
+        simp [pstep, hfile]
+        exact finish_fin hG hP _ _ hl ha ht (by simp) (Or.inl (Or.inl rfl))
+    by_cases hg : G.l.handlerExistsGuard = true
+    · simp only [hg, if_true]
+      apply Fin_step
+      cases hfile : sh.file with
+      | none =>
+        simp [pstep, hfile]
+        exact finish_fin hG hP _ _ hl ha ht (by simp) (Or.inl (Or.inl hfile))
+      | some b =>
+        simp [pstep, hfile]
+        exact rm
+    · simp only [hg]
+      exact rm
+  · simp only [hr]
+    rcases hrep with ⟨_, h⟩ | ⟨h1, h2⟩
+    · exact absurd h hr
+    · exact finish_fin hG hP _ _ hl ha ht (by simp) (Or.inr ⟨h2, hfp, rfl, h1⟩)
+
+/-- after a successful `pickle.load`: `isinstance`, fingerprint comparison -/
+theorem checks_fin {env : Env} {G : Guards} {measured : List Exc} {qs : List Nat}
+    (hG : WF G) (hP : PickleOK env measured)
+    (hrep : (G.l.removeStale = true ∧ G.l.handlerRemoves = true) ∨ (qs ≠ [] ∧ G.w.mergesExisting = false))
+    (sh : Sh) (p : Proc) (v : Val) (b : Bytes)
+    (hld : p.loaded = some v) (hfile : sh.file = some b) (hu : env.unpickle b = .ok v) (hs : Sound env v)
+    (hl : sh.lock = none) (hfp : p.selfFp = none) (ha : p.answers = []) (ht : p.todo = qs) :
+    Fin env G qs sh (loaderChecks env G p) := by
+  unfold loaderChecks
+  simp only [hld, hG.typeChecked, hG.typeCheckInTry, hG.fpChecked, hG.staleClears, Bool.true_and, if_true,
+    Bool.not_true, Bool.false_or]
+  by_cases hty : v.ty = env.expectedTy
+  · by_cases hfpv : env.fpOf (keys v.ents) = v.fp
+    · simp only [hty, hfpv, bne_self_eq_false, beq_self_eq_true, if_true, Bool.false_eq_true, if_false]
+      refine finish_fin hG hP _ _ hl ha ht ?_ ?_
+      · intro v' hv'
+        cases (Option.some.inj hv')
+        exact hs hty hfpv
+      · exact Or.inl (Or.inr ⟨b, hfile, v, hu, hty, hs hty hfpv, hfpv⟩)
+    · have h1 : (env.fpOf (keys v.ents) == v.fp) = false := by simpa using hfpv
+      simp only [hty, h1, bne_self_eq_false, Bool.false_eq_true, if_false]
+      by_cases hrs : G.l.removeStale = true
+      · simp only [hrs, if_true]
+        apply Fin_step
+        simp [pstep, hfile]
+        exact finish_fin hG hP _ _ hl ha ht (by simp) (Or.inl (Or.inl rfl))
+      · simp only [hrs]
+        rcases hrep with ⟨h, _⟩ | ⟨h1, h2⟩
+        · exact absurd h hrs
+        · exact finish_fin hG hP _ _ hl ha ht (by simp) (Or.inr ⟨h2, hfp, rfl, h1⟩)
+  · have h1 : (v.ty != env.expectedTy) = true := by simpa using hty
+    simp only [h1, if_true]
+    exact raise_fin hG hP hrep sh p _ hG.lTypeExc hl hfp ha ht
+
 end SpsdkVerif.DbCache
